@@ -3,6 +3,7 @@ CONSTANTS
   Atomic = TRUE
   SkipTruth = TRUE
   MaxRuns = 3
+  BySpelling = FALSE
 INVARIANT Agreement
 INVARIANT TruthUntouched
 INVARIANT ReportTruthful
